@@ -1373,6 +1373,12 @@ class FuncAnalysis:
                 if head in self.f.module.imports and self.prog.resolve_name(self.f.module, head) is None:
                     # external module function (ar., np., functools., itertools., operator., ...)
                     self.an.resolved_calls += 1
+                    if d in ("copy.copy", "copy.deepcopy"):
+                        # a new object. (A shallow copy's slots still hold the source's containers; writes *through* them are not
+                        # attributed to the source here - rule R14.8 decides such code by evaluation.)
+                        for a in call.args:
+                            self.expr(a, env)
+                        return frozenset([mkref(self.fresh(call, "obj"))])
                     if d == "ar.do" and call.args and isinstance(call.args[0], ast.Constant) and \
                             call.args[0].value in ("zeros", "ones", "empty", "eye", "full", "zeros_like",
                                                    "ones_like", "count_nonzero", "all", "any", "sum"):
